@@ -389,8 +389,10 @@ def generate(rng, tier, i):
             r["h"] = 0.4
     elif u < 0.92:
         r = gm.random_3d(rng, "cartesian", max_fracs=3)
-        if rng.random() < 0.3:
-            r["n"] = [2 * v for v in r["domain"]]
+        if rng.random() < 0.5:
+            # different numbers of cells per direction (index strides of structured
+            # meshing must not be mixed up)
+            r["n"] = [int(v * rng.integers(1, 3)) for v in r["domain"]]
     else:
         r = gm.random_3d(rng, "simplex", max_fracs=2)
     if r["mesh"] == "cartesian" and rng.random() < 0.3:
@@ -405,6 +407,24 @@ def generate(rng, tier, i):
 
 def floor(tier):
     out = [{"recipe": r} for r in gm.floor_recipes()]
+    # 3-D Cartesian, nx != ny != nz, two fractures meeting along a line in each direction
+    for ax in range(3):
+        L = [3, 2, 4]
+        o = [k for k in range(3) if k != ax]          # fracture normals o[0], o[1]
+        fr = []
+        for nrm in o:
+            other = [k for k in range(3) if k not in (ax, nrm)][0]
+            v = []
+            hi = min(3, L[ax])
+            for a, b in [(1, 0), (hi, 0), (hi, L[other]), (1, L[other])]:
+                p = [0, 0, 0]
+                p[nrm] = 1
+                p[ax] = a
+                p[other] = b
+                v.append(p)
+            fr.append(v)
+        out.append({"recipe": {"dim": 3, "mesh": "cartesian", "domain": L, "n": L,
+                               "fractures": fr}})
     # tensor grids from a non-dividing target cell size
     for k, r in enumerate(gm.floor_recipes(meshes=("cartesian",))):
         if k % 2 == 0:
